@@ -305,9 +305,6 @@ Section MyersPost.
         { destruct (exp w); [|reflexivity]. now specialize (Hb eq_refl). }
         assert (F0 : Free (cnt w) w0).
         { split; [exact Hw0|]. split; [|exact Hc0]. rewrite He0, Hex. reflexivity. }
-        assert (Hfin : forall w2, Free (cnt w) w2 ->
-                  Keeps w w2 /\ cnt w2 = cnt w /\ (exp w = true -> 0 < S rounds -> r = r)).
-        { intros w2 (G1 & G2 & G3). split; [|auto]. split; [exact G1|]. congruence. }
         pose proof (fwd_loop_keeps wd cmp (Free (cnt w)) (Free_tick (cnt w))
                       _ _ _ _ _ _ _ _ _ _ _ _ _ Hf F0) as F1.
         destruct H as [(p & _ & H)|[_ (r2 & vb1 & w2 & Hbw & H)]].
@@ -683,7 +680,7 @@ Section LcsPost.
   Qed.
 End LcsPost.
 
-(* C07 for LCS: no comparison at all after expiry (no monotonicity needed) *)
+(* C07 for LCS: no comparison at all after expiry *)
 Theorem lcs_post_expiry dl cmp os oe ns ne w0 w1 :
   DlMono dl -> ClkInv dl (p_ctr w0) -> expired (p_ctr w0) = false ->
   lcs_diff (plain_world dl) cmp os oe ns ne w0 = Ok w1 ->
@@ -742,7 +739,7 @@ Proof.
   intros HP. induction len as [|len IH]; intros o n sw sw' H Hw; cbn [anchor_loop] in H.
   - inversion H; subst. exact Hw.
   - apply bind_Ok_inv in H. destruct H as (sw1 & Hs & H).
-    eapply IH; [exact H|]. eapply anchor_step_stable; eassumption.
+    apply (IH _ _ _ _ H). exact (anchor_step_stable wd cmp uo un P HP _ _ _ _ Hs Hw).
 Qed.
 
 Lemma Stable_patience {W} (wd : world W) cmp uo un oe ne P :
@@ -756,7 +753,7 @@ Proof.
     now apply (st_tick wd P HP).
   - intros c [s w] sw' Hw H. cbn [emit patience_world patience_emit] in H.
     destruct c as [o n len|o l n|o n l|o ol n nl|].
-    + eapply anchor_loop_stable; eassumption.
+    + exact (anchor_loop_stable wd cmp uo un P HP _ _ _ _ _ H Hw).
     + inversion H; subst. exact Hw.
     + inversion H; subst. exact Hw.
     + inversion H; subst. exact Hw.
@@ -777,7 +774,7 @@ Proof.
     rewrite replace_emit_step in H. unfold run_trace in H.
     apply bind_Ok_inv in H. destruct H as (w1 & He & H).
     destruct (snd (replace_step dbg c s)); [|discriminate]. inversion H; subst. cbn [snd] in *.
-    eapply emit_all_stable; eassumption.
+    exact (emit_all_stable wd P HP _ _ _ He Hw).
 Qed.
 
 (* ---- cost of the while loop of Patience::equal ---- *)
@@ -923,12 +920,12 @@ Section PatiencePost.
     probe RWl (rs, (ps, pl)) = (b, w') ->
     exists pl', w' = (rs, (ps, pl')) /\ probe (plain_world dl) pl = (b, pl').
   Proof.
-    unfold RW, PW, replace_world, patience_world, lift_probe.
-    cbn [probe fst snd].
-    destruct (let '(b0, c) := deadline_exceeded dl (p_ctr pl) in
-              (b0, {| p_ctr := c; p_log := p_log pl |})) as [b' pl'] eqn:E.
-    intros H. inversion H; subst. exists pl'. split; [reflexivity|].
-    unfold plain_world. cbn [probe]. exact E.
+    assert (E0 : probe RWl (rs, (ps, pl)) =
+                 (fst (probe (plain_world dl) pl), (rs, (ps, snd (probe (plain_world dl) pl))))).
+    { unfold RW, PW, replace_world, patience_world, lift_probe. cbn [probe fst snd].
+      destruct (probe (plain_world dl) pl); reflexivity. }
+    rewrite E0. intros H. inversion H; subst.
+    exists (snd (probe (plain_world dl) pl)). split; [reflexivity|apply surjective_pairing].
   Qed.
 
   Lemma ClockResp_RW : ClockResp RWl rinv rexp.
@@ -1056,8 +1053,8 @@ Section PatiencePost.
     destruct (AtCursor_bounds uo un os oe ns ne Hoe Hne Huo_r Hun_r _ _ _ _ Hat) as [Hoc Hnc].
     cbn [emit PW patience_world patience_emit] in H.
     apply bind_Ok_inv in H. destruct H as (w1 & Hm & H). inversion H; subst pl'. clear H.
-    destruct (myers_post (plain_world dl) _ _ _ cmp _ _ _ _ pl w1 HPp
-                ltac:(lia) ltac:(lia)
+    destruct (myers_post (plain_world dl) _ _ _ cmp (old_current ps) oe (new_current ps) ne
+                pl w1 HPp ltac:(lia) ltac:(lia)
                 ltac:(eapply CmpTotal_sub; [exact Htot|lia..]) HI Hm) as (_ & _ & C).
     unfold pot in HB. lia.
   Qed.
@@ -1135,20 +1132,23 @@ Section PatiencePost.
   Proof.
     split.
     - intros u v u0 [g [rs [ps pl]]] b gw' (A & HI & HPl & HIn & HB) Hp. cbn [fst snd] in *.
-      unfold GW in Hp. rewrite ghost_probe in Hp. inversion Hp; subst b gw'. clear Hp.
-      destruct (RW_probe_ctr rs ps pl _ _ (surjective_pairing _)) as (pl' & E & Hp).
-      rewrite E. exists A. cbn [fst snd].
+      unfold GW in Hp. rewrite ghost_probe in Hp.
+      destruct (probe RWl (rs, (ps, pl))) as [b1 w1] eqn:Ep.
+      destruct (RW_probe_ctr rs ps pl _ _ Ep) as (pl' & E & Hp').
+      cbn [fst snd] in Hp. inversion Hp; subst b gw' w1. clear Hp. rename Hp' into Hp.
+      exists A. cbn [fst snd].
       destruct (po_probe _ _ _ _ HPp _ _ _ HIn Hp) as (K1 & K2 & _).
       split; [exact HI|]. split; [|split; [exact K1|]].
       + eapply P_log; [|exact HPl]. exact (lg_probe _ (Logging_plain dl) _ _ _ Hp).
       + cbn [fst snd]. rewrite K2. exact HB.
     - intros u v u0 [g [rs [ps pl]]] k (A & HI & HPl & HIn & HB). cbn [fst snd] in *.
-      exists A. unfold GW. cbn [tick ghost_world fst snd].
-      cbn [tick RW replace_world lift_tick PW patience_world fst snd].
+      exists A.
+      change (tick GW k (g, (rs, (ps, pl)))) with
+        (g + (if pexp pl then k else 0), (rs, (ps, tick (plain_world dl) k pl))).
       destruct (po_tick _ _ _ _ HPp k pl HIn) as (K1 & _ & K3).
       split; [exact HI|]. cbn [fst snd]. split; [|split; [exact K1|]].
       + eapply P_log; [|exact HPl]. reflexivity.
-      + rewrite K3. unfold rexp. cbn [snd]. lia.
+      + cbn [fst snd]. rewrite K3. lia.
     - intros u v u0 [g w] l [g' w'] (A & HJ) Hl Hseg He. cbn [fst snd] in *.
       apply ghost_emit_inv in He. destruct He as [-> He].
       exists A. cbn [fst snd]. eapply JQ_eq; eassumption.
@@ -1172,7 +1172,8 @@ Section PatiencePost.
     pose proof (CmpTotal_ucmp cmp uo un os oe ns ne Hoe Hne Htot Huo_r Hun_r) as Htu.
     pose (C0 := ppost w0 + ((oe - os) + (ne - ns) + 1)).
     (* the outer run's own comparisons *)
-    destruct (conquer_post GW _ _ _ uc _ _ 0 (length uo) 0 (length un) _ _ _ vf' vb' (g2, w2)
+    destruct (conquer_post GW _ _ _ uc _ _ 0 (length uo) 0 (length un) _ _
+                (0, start os ns w0) vf' vb' (g2, w2)
                 (PostResp_ghost RWl rinv rexp ClockResp_RW)
                 (Nat.le_0_l _) (Nat.le_0_l _) Htu (VOk_v_new _) (VOk_v_new _) (le_n _) HI0 Hc)
       as (_ & _ & Cg).
@@ -1184,7 +1185,8 @@ Section PatiencePost.
       - exact (P_init cmp uo un os oe ns ne w0 Hoe Hne).
       - exact HI0.
       - unfold pot, C0. cbn [fst snd old_current new_current]. lia. }
-    destruct (conquer_inv GW uc (JG C0) _ _ 0 (length uo) 0 (length un) _ _ _ 0 vf' vb' (g2, w2)
+    destruct (conquer_inv GW uc (JG C0) _ _ 0 (length uo) 0 (length un) _ _
+                (0, start os ns w0) 0 vf' vb' (g2, w2)
                 (Respects_JG C0) (snake_spec _ GW uc)
                 (Nat.le_0_l _) (Nat.le_0_l _) Htu (VOk_v_new _) (VOk_v_new _) (le_n _) (le_n _)
                 H0 Hc) as (u0 & _ & (A & HJ) & _).
@@ -1215,3 +1217,90 @@ Proof.
   pose proof (Asc_length uo os oe Ha1 Hr1). pose proof (Asc_length un ns ne Ha2 Hr2).
   unfold ppost in Hp. lia.
 Qed.
+
+(* ================================================================ Part 6 *)
+(* the bound proved for each algorithm, as a function of N and M *)
+Definition post_bound (alg : algorithm) (n m : nat) : nat :=
+  match alg with
+  | Myers => n + m
+  | Lcs => 0
+  | Patience => 2 * (n + m) + 1
+  end.
+
+Theorem post_expiry_bound_dl alg dl dbg orc os oe ns ne calls c :
+  DlMono dl ->
+  os <= oe -> ns <= ne -> CmpTotal (o_on orc) os oe ns ne ->
+  raw_trace alg dl dbg orc os oe ns ne = Ok (calls, c) ->
+  post_cmps c <= post_bound alg (oe - os) (ne - ns).
+Proof.
+  intros Hm Hoe Hne Htot H. unfold raw_trace in H.
+  apply bind_Ok_inv in H. destruct H as (w & Hd & H). inversion H; subst calls c. clear H.
+  destruct alg; cbn [diff_deadline post_bound] in *.
+  - exact (myers_post_expiry dl _ os oe ns ne plain0 w Hm Hoe Hne Htot (ClkInv_ctr0 dl) Hd).
+  - pose proof (patience_post_expiry dl dbg _ _ _ os oe ns ne plain0 w Hm Hoe Hne Htot
+                  (ClkInv_ctr0 dl) Hd) as Hp.
+    cbn [plain0 p_ctr ctr0 post_cmps] in Hp. lia.
+  - rewrite (lcs_post_expiry dl _ os oe ns ne plain0 w Hm (ClkInv_ctr0 dl) eq_refl Hd).
+    reflexivity.
+Qed.
+
+(* C07, the clause as stated: a monotone clock, in-bounds ranges, a total
+   comparison oracle; K = 2, K' = 1 for every algorithm *)
+Theorem post_expiry_bound alg clk dbg orc os oe ns ne calls c :
+  (forall i j, i <= j -> clk i = true -> clk j = true) ->
+  os <= oe -> ns <= ne -> CmpTotal (o_on orc) os oe ns ne ->
+  raw_trace alg (Some clk) dbg orc os oe ns ne = Ok (calls, c) ->
+  post_cmps c <= 2 * ((oe - os) + (ne - ns)) + 1.
+Proof.
+  intros Hm Hoe Hne Htot H.
+  pose proof (post_expiry_bound_dl alg (Some clk) dbg orc os oe ns ne calls c Hm Hoe Hne Htot H)
+    as Hp.
+  destruct alg; cbn [post_bound] in Hp; lia.
+Qed.
+
+(* the bound used by the run-time checker *)
+Corollary post_expiry_bound_checker alg clk dbg orc os oe ns ne calls c :
+  (forall i j, i <= j -> clk i = true -> clk j = true) ->
+  os <= oe -> ns <= ne -> CmpTotal (o_on orc) os oe ns ne ->
+  raw_trace alg (Some clk) dbg orc os oe ns ne = Ok (calls, c) ->
+  post_cmps c <= 8 * ((oe - os) + (ne - ns)) + 8.
+Proof.
+  intros Hm Hoe Hne Htot H.
+  pose proof (post_expiry_bound alg clk dbg orc os oe ns ne calls c Hm Hoe Hne Htot H). lia.
+Qed.
+
+(* the harness clock "expires at probe k" is monotone *)
+Lemma clock_at_mono k : forall i j, i <= j -> clock_at k i = true -> clock_at k j = true.
+Proof.
+  unfold clock_at. intros i j Hij H. apply Nat.leb_le in H. apply Nat.leb_le. lia.
+Qed.
+
+(* non-vacuity / tightness: comparisons do happen after expiry (the scans of
+   the conquer frames still pending), and for Patience N + M is NOT a bound
+   (N + M = 6 here, 9 comparisons after the clock expired at probe 3) *)
+Definition nat_oracles (old new : list nat) : oracles :=
+  {| o_on := cmp_of Nat.eqb (slice_lookup old) (slice_lookup new);
+     o_oo := cmp_same Nat.eqb (slice_lookup old);
+     o_nn := cmp_same Nat.eqb (slice_lookup new) |}.
+
+Example post_expiry_myers_instance :
+  match raw_trace Myers (Some (clock_at 3)) true (nat_oracles [0; 0; 1; 0] [1; 1]) 0 4 0 2 with
+  | Ok (_, c) => post_cmps c = 2 /\ expired c = true
+  | _ => False
+  end.
+Proof. vm_compute. split; reflexivity. Qed.
+
+Example post_expiry_patience_instance :
+  match raw_trace Patience (Some (clock_at 3)) true (nat_oracles [2; 1; 0] [0; 1; 3]) 0 3 0 3 with
+  | Ok (_, c) => post_cmps c = 9 /\ expired c = true
+  | _ => False
+  end.
+Proof. vm_compute. split; reflexivity. Qed.
+
+Print Assumptions conquer_post.
+Print Assumptions myers_post_expiry.
+Print Assumptions lcs_post_expiry.
+Print Assumptions patience_post_expiry.
+Print Assumptions post_expiry_bound_dl.
+Print Assumptions post_expiry_bound.
+Print Assumptions post_expiry_bound_checker.
